@@ -130,45 +130,35 @@ cpdef list collect_intervals_fast(
         List of TimeInterval objects
     """
     cdef list intervals = []
-    cdef int duration = 0
-    cdef int start = 0
+    cdef int run_start = -1   # -1: not inside a run (index 0 is a legitimate run start)
     cdef int idx = start_idx
-    cdef int current_idx
-    cdef object val
-    cdef bint pred_result
+    cdef int first, last
+    cdef bint in_run
     cdef int sb_len = len(sb)
+    cdef int scan_end = e_idx + min_duration_slots
 
-    while idx <= end_idx:
-        # Get value with boundary check
-        if idx < sb_len:
-            val = sb[idx]
-        else:
-            val = None
+    # Scan [start_idx, scan_end) for maximal runs of slots satisfying the predicate; the scan
+    # region is the window widened by the minimum duration on both sides. Qualifying runs are
+    # clipped to the window [s_idx, e_idx); runs wholly outside it are dropped.
+    if scan_end > size:
+        scan_end = size
+    if scan_end > sb_len:
+        scan_end = sb_len
 
-        # Check predicate
-        pred_result = predicate(val) if idx < end_idx else False
-
-        if pred_result:
-            if start == 0:
-                start = idx
-            duration += 1
-        else:
-            if duration > 0:
-                if duration >= min_duration_slots:
-                    if start < s_idx:
-                        start = s_idx
-                    current_idx = idx
-                    if current_idx > e_idx:
-                        current_idx = e_idx
-
-                    # Create interval
-                    start_dt = start_date + timedelta(seconds=start * resolution)
-                    end_dt = start_date + timedelta(seconds=current_idx * resolution)
+    while idx <= scan_end:
+        in_run = idx < scan_end and bool(predicate(sb[idx]))
+        if in_run:
+            if run_start < 0:
+                run_start = idx
+        elif run_start >= 0:
+            if idx - run_start >= min_duration_slots:
+                first = run_start if run_start > s_idx else s_idx
+                last = idx if idx < e_idx else e_idx
+                if first < last:
+                    start_dt = start_date + timedelta(seconds=first * resolution)
+                    end_dt = start_date + timedelta(seconds=last * resolution)
                     intervals.append(interval_class(start_dt, end_dt))
-
-                duration = 0
-                start = 0
-
+            run_start = -1
         idx += 1
 
     return intervals
